@@ -15,6 +15,7 @@
  *       RS / RP                                   ZSTD_CCtx_reset(session_only / session_and_parameters)
  *       D:<level>:<size>                          a frame with a dictionary
  *       MT:<workers>:<size>:<ldm>                 a multi-threaded frame
+ *       MTA:<workers>:<size>:<n>                  a multi-threaded frame abandoned after n bytes were fed
  */
 #define ZSTD_STATIC_LINKING_ONLY
 #include "zstd.h"
@@ -92,6 +93,11 @@ static void history_op(ZSTD_CCtx* c, const probe_t* p, const unsigned char* psrc
     else if (!strcmp(f[0], "D") && nf >= 3) { int level = atoi(f[1]); size_t n = (size_t)atol(f[2]);
         ZSTD_CCtx_reset(c, ZSTD_reset_session_and_parameters); ZSTD_CCtx_setParameter(c, ZSTD_c_compressionLevel, level); ZSTD_CCtx_loadDictionary(c, dictFmt, dictFmtSize);
         vgen("text", n, 29, scratchSrc); r = ZSTD_compress2(c, scratchDst, ZSTD_compressBound(n), scratchSrc, n); }
+    else if (!strcmp(f[0], "MTA") && nf >= 4) { int w = atoi(f[1]); size_t n = (size_t)atol(f[2]), fed = (size_t)atol(f[3]); ZSTD_inBuffer in; ZSTD_outBuffer ob; if (isStatic) return;
+        /* a multi-threaded frame abandoned after at least one job was posted */
+        ZSTD_CCtx_reset(c, ZSTD_reset_session_and_parameters); ZSTD_CCtx_setParameter(c, ZSTD_c_compressionLevel, 2); ZSTD_CCtx_setParameter(c, ZSTD_c_nbWorkers, w); ZSTD_CCtx_setParameter(c, ZSTD_c_jobSize, 1);
+        vgen("mix", n, 37, scratchSrc); in.src = scratchSrc; in.size = fed < n ? fed : n; in.pos = 0; ob.dst = scratchDst; ob.size = ZSTD_compressBound(n); ob.pos = 0;
+        r = ZSTD_compressStream2(c, &ob, &in, ZSTD_e_continue); if (!ZSTD_isError(r) && (fed & 1)) r = ZSTD_compressStream2(c, &ob, &in, ZSTD_e_flush); if (ZSTD_isError(r)) r = 0; }
     else if (!strcmp(f[0], "MT") && nf >= 4) { int w = atoi(f[1]); size_t n = (size_t)atol(f[2]); if (isStatic) return;
         ZSTD_CCtx_reset(c, ZSTD_reset_session_and_parameters); ZSTD_CCtx_setParameter(c, ZSTD_c_compressionLevel, 2); ZSTD_CCtx_setParameter(c, ZSTD_c_nbWorkers, w); ZSTD_CCtx_setParameter(c, ZSTD_c_jobSize, 1);
         if (atoi(f[3])) { ZSTD_CCtx_setParameter(c, ZSTD_c_enableLongDistanceMatching, 1); ZSTD_CCtx_setParameter(c, ZSTD_c_windowLog, 20); }
